@@ -116,6 +116,61 @@ Lemma tvf_tables_consistent : forall a b c d,
   forallb tvf_consistent (tvf_tumble a b c d) = true /\ forallb tvf_consistent (tvf_poll a b) = true.
 Proof. intros. repeat split; reflexivity. Qed.
 
+Lemma limit_eval_no_panic : forall cols e, is_panic (limit_eval cols e) = false.
+Proof. intros cols [[|v vs] b]; simpl; [destruct b|]; reflexivity. Qed.
+(* and a limit that is accepted is a constant Int *)
+Lemma limit_eval_ok : forall cols e b, limit_eval cols e = Ok b -> lvars e = [] /\ lint e = true.
+Proof. intros cols [[|v vs] i] b; simpl; [destruct i|]; intros H; try discriminate. split; reflexivity. Qed.
+
+Lemma get_value_no_panic : forall v t, is_panic (get_value false t v) = false.
+Proof.
+  fix IH 1. intros v t. destruct v as [l|]; destruct t as [[et|]|]; simpl; try reflexivity.
+  - induction l as [|x rest IHl]; [reflexivity|].
+    specialize (IH x et). destruct (get_value false et x); simpl in *; try reflexivity; try discriminate.
+    match goal with |- is_panic (obind ?g _) = false => destruct g end; simpl in *; try reflexivity; discriminate.
+  - destruct l; reflexivity.
+Qed.
+
+Lemma join_retract_no_panic : forall times, is_panic (join_retract times) = false.
+Proof. intros [|t r]; reflexivity. Qed.
+Lemma join_row_history_no_panic : forall ops times, is_panic (join_row_history false times ops) = false.
+Proof.
+  induction ops as [|[|] ops IH]; intros times; simpl; [reflexivity| |apply IH].
+  destruct times; simpl; apply IH.
+Qed.
+(* the pinned join panics exactly when some prefix of the row's history has more retractions than insertions *)
+Fixpoint balance_ok (n : nat) (ops : list bool) : bool :=
+  match ops with
+  | [] => true
+  | false :: rest => balance_ok (S n) rest
+  | true :: rest => match n with O => false | S n' => balance_ok n' rest end
+  end.
+Lemma join_row_history_pinned_spec : forall ops times,
+  is_panic (join_row_history true times ops) = negb (balance_ok (length times) ops).
+Proof.
+  induction ops as [|[|] ops IH]; intros times; simpl.
+  - reflexivity.
+  - destruct times as [|t r]; simpl; [reflexivity | apply IH].
+  - rewrite IH. rewrite app_length. simpl. rewrite Nat.add_1_r. reflexivity.
+Qed.
+
+Lemma coalesce_mapping_no_panic : forall n l, is_panic (coalesce_mapping n l) = false.
+Proof. intros. unfold coalesce_mapping. destruct (forallb _ l); reflexivity. Qed.
+Lemma repeat_alloc_no_panic : forall mem len count, is_panic (repeat_alloc mem len count) = false.
+Proof.
+  intros. unfold repeat_alloc. pose proof (repeat_no_panic len count) as H.
+  destruct (repeat_len len count); simpl in *; try reflexivity; try discriminate. destruct (mem <? a); reflexivity.
+Qed.
+
+Lemma later_pinned_sites_panic :
+  limit_eval_pinned [1; 2] (mklim [2] true) = Panic site_limit_no_record /\
+  get_value true (JList None) (JArr [JScalar]) = Panic site_json_nil_element /\
+  get_value true (JList (Some (JList None))) (JArr [JArr []; JArr [JScalar]]) = Panic site_json_nil_element /\
+  join_row_history true [] [false; true; true] = Panic site_join_retraction /\
+  coalesce_mapping_pinned 3%nat [2%nat; 3%nat] = Panic site_coalesce_tuple /\
+  repeat_alloc_pinned 281474976710656 1 9223372036854775807 = Panic site_repeat_memory.
+Proof. vm_compute. repeat split; reflexivity. Qed.
+
 (* ---- pinned sites: each one panics on some input ---- *)
 Lemma pinned_sites_panic :
   int_div_pinned 1 0 = Panic site_int_div /\
